@@ -343,6 +343,34 @@ DelSpace(op) ==
     /\ last' = [n |-> <<>>, res |-> 0, tb |-> <<>>, fx |-> <<>>, t |-> FALSE]
     /\ UNCHANGED <<stack, refstack, rolled, mode, exc>>
 
+\* space.rename(name) (UserSpaceImpl.on_rename, space.py): the same invalidation as a
+\* deletion -- values and inputs of the renamed tree, values computed through its cells
+\* (cached or not) and through its references or model-level references reached by
+\* attribute -- and the definitions live on under the new path
+RenameSpace(op) ==
+    /\ Idle /\ op.op = "rename_space" /\ Record(op)
+    /\ LET gone == Subtree(D, op.p)
+           new  == Append(Front(op.p), op.nm)
+           R(q) == IF IsPrefix(op.p, q) THEN new \o SubSeq(q, Len(op.p) + 1, Len(q)) ELSE q
+           nsp  == {R(q) : q \in D.sp}
+           Old(q) == CHOOSE x \in D.sp : R(x) = q
+           Rv(v) == IF v[1] \in {"sp", "ce"} THEN <<v[1], R(v[2]), v[3], v[4]>> ELSE v
+           D2 == [D EXCEPT !.sp = nsp,
+                    !.bases = [q \in nsp |-> [i \in 1..Len(D.bases[Old(q)]) |-> R(D.bases[Old(q)][i])]],
+                    !.cells = [q \in nsp |-> D.cells[Old(q)]],
+                    !.refs  = [q \in nsp |-> [n \in DOMAIN D.refs[Old(q)] |->
+                                  [D.refs[Old(q)][n] EXCEPT !.v = Rv(@)]]],
+                    !.grefs = [n \in DOMAIN @ |-> [@[n] EXCEPT !.v = Rv(@)]],
+                    !.span  = [q \in nsp |-> D.span[Old(q)]],
+                    !.pf    = [q \in {R(x) : x \in DOMAIN D.pf} |-> D.pf[Old(q)]],
+                    !.inp   = Drop(@, {n \in DOMAIN @ : n[1] \in gone})]
+           seeds == {n \in tgn : n[1] \in gone}
+                    \cup UNION {AttrReferrers(<<t, r>>) : t \in gone, r \in UNION {DOMAIN D.refs[u] : u \in gone}}
+                    \cup UNION {AttrReferrers(<<<<>>, g>>) : g \in DOMAIN D.grefs} IN
+       ClearNodesD(seeds, D2)
+    /\ last' = [n |-> <<>>, res |-> 0, tb |-> <<>>, fx |-> <<>>, t |-> FALSE]
+    /\ UNCHANGED <<stack, refstack, rolled, mode, exc>>
+
 -----------------------------------------------------------------------------
 \* which operations of the vocabulary make sense in the current definitions
 Applicable(op) ==
@@ -358,6 +386,7 @@ Applicable(op) ==
       [] op.op = "set_formula" -> op.s \in D.sp /\ op.c \in DOMAIN D.cells[op.s] /\ D.cells[op.s][op.c].f # op.f
       [] op.op = "set_cached"  -> op.s \in D.sp /\ op.c \in DOMAIN D.cells[op.s] /\ D.cells[op.s][op.c].cached # op.b
       [] op.op = "del_space"   -> op.p \in D.sp
+      [] op.op = "rename_space" -> op.p \in D.sp /\ Append(Front(op.p), op.nm) \notin D.sp
       [] OTHER -> FALSE
 
 Init ==
@@ -370,7 +399,7 @@ Init ==
 Next ==
     \/ \E i \in 1..Len(AllOps) : LET op == AllOps[i] IN Applicable(op) /\ (
           TopCall(op) \/ SetValue(op) \/ ClearAt(op) \/ ClearCells(op) \/ SetRef(op)
-          \/ DelRef(op) \/ SetCellsProp(op) \/ DelSpace(op))
+          \/ DelRef(op) \/ SetCellsProp(op) \/ DelSpace(op) \/ RenameSpace(op))
     \/ (Step /\ UNCHANGED hist)
     \/ Unwind
 
